@@ -10,6 +10,7 @@ import (
 	"sync"
 	"time"
 
+	"github.com/superfly/litefs"
 	lhttp "github.com/superfly/litefs/http"
 	"github.com/superfly/ltx"
 	"verif/cluster"
@@ -70,13 +71,18 @@ func newC08Obs(c *core.Case, cl *cluster.Cluster) *c08Obs {
 	return o
 }
 
-func (o *c08Obs) node(name string) *cluster.CNode {
-	for _, n := range o.cl.Nodes {
-		if n.Name == name && n.Node != nil {
-			return n
-		}
+// c08Live is what an observer callback may touch of a node.
+type c08Live struct {
+	Store *litefs.Store
+	Opts  cluster.NodeOpts
+}
+
+func (o *c08Obs) node(name string) *c08Live {
+	n, cn := o.cl.Live(name)
+	if n == nil {
+		return nil
 	}
-	return nil
+	return &c08Live{Store: n.Store, Opts: cn.Opts}
 }
 
 func (o *c08Obs) probe(seq uint64, node, op string) {
